@@ -77,6 +77,11 @@ func (c *chooser) Choose(step int, enabled []int, sites []int) int {
 				c.prio[c.last] = -step // demote the running task
 			}
 		}
+		for _, t := range enabled {
+			for len(c.prio) <= t { // a task the code under test spawned itself: a priority of its own, drawn when first seen
+				c.prio = append(c.prio, 10+c.r.Intn(len(c.prio)+1))
+			}
+		}
 		best := -1 << 62
 		for i, t := range enabled {
 			if c.prio[t] > best {
